@@ -5,11 +5,7 @@ TECH = 'contract-based deductive verification: sidecar contracts on the real sou
 LEVELS = {
     'C16': {
         'category': 'other',
-        'text': 'Range well-formedness and exception freedom of the scanners, the CSS structure scan, the attribute parser and '
-                'the value splitter are proved for all inputs by discharged verification conditions over the real function '
-                'bodies (loop invariants, callback contracts, index-safety obligations). The relational HTML clause (match == '
-                'balanced_outward[0], nesting of entries) and functions not yet under contract are covered by an exhaustive '
-                'small-scope run, labelled bounded and not counted as proved.',
+        'text': 'Proved for all inputs: range well-formedness and exception freedom of the scanners, the CSS structure scan (callback contract), the attribute parser, value splitter, css match/balanced_outward; HTML tag shape, name position and increasing order (callback contract with ghost state); html match/balanced_outward well-formed, containing the position, successive outward entries strictly nested. The relational clause match == balanced_outward[0] and balanced_inward are a bounded stand-in: exhaustive character strings and token-sequence documents, all positions.',
         'design_ref': 'DESIGN.md section 7 (C16)',
         'note': 'Trusted: the pyvc VC generator and its encoding of the Python subset (DESIGN.md 1.3), z3/cvc5, CPython for the '
                 'bounded part; callbacks are assumed not to mutate scanner-internal objects.',
@@ -42,11 +38,11 @@ LEVELS = {
     },
     'C06': {
         'category': 'other',
-        'text': 'The main quantifier of the property is finite (every key and every dash-free keyword of the built-in table, every stylesheet syntax, every scope) and is decided by complete enumeration on the real code; user tables are a bounded stand-in (random tables). The best-match search loop is planned under contract (DESIGN.md); until then nothing of C06 is counted as proved by VCs.',
+        'text': 'Proved for arbitrary tables: find_best_match returns the first item whose key equals the abbreviation with score 1, otherwise the last item of maximal non-zero score if it reaches min_score, otherwise None (calculate_score abstracted to a deterministic value in [0,1]). The main quantifier of the property is finite (every key and dash-free keyword of the built-in table x syntaxes x scopes) and is decided by complete enumeration on the real code; user tables are a bounded stand-in.',
         'design_ref': 'DESIGN.md section 7 (C06)',
         'note': 'Trusted: CPython for enumeration. Known finding KF-C06-LG (gradient shortcut lg) is reported, not suppressed for other inputs.',
         'technique': TECH + '; complete finite-domain enumeration of the built-in snippet table; bounded stand-in for user tables',
-        'clauses': 'F: builtin-keys, builtin-keys-scoped, builtin-keywords, user-override-builtin; B: user-tables, user-case-keys.',
+        'clauses': 'P: stylesheet.find_best_match; F: builtin-keys, builtin-keys-scoped, builtin-keywords, user-override-builtin; B: user-tables, user-case-keys.',
     },
     'C09': {
         'category': 'other',
@@ -74,19 +70,19 @@ LEVELS = {
     },
     'C20': {
         'category': 'other',
-        'text': 'Complete finite-domain clauses on the real Config: every known syntax x every subset of the five overriding layers x options/snippets/variables, unknown syntax fallback, documented defaults; built-in tables and caller dictionaries deep-compared before/after. Observation through expand() and random layer contents are bounded stand-ins. The merge function merged_data is planned under contract for arbitrary dictionaries (DESIGN.md).',
+        'text': 'Proved for arbitrary dictionaries: merged_data yields, for every key, the value of the most specific layer defining it in the documented order (six abstract layers), layers not mentioning a key leave it untouched, an unknown syntax falls back to the remaining layers, and nothing but the fresh result is written. Complete finite-domain clauses on the real Config: every known syntax x every subset of the five overriding layers, documented defaults. Observation through expand() is a bounded stand-in.',
         'design_ref': 'DESIGN.md section 7 (C20)',
         'note': 'Trusted: CPython for enumeration.',
         'technique': TECH + '; complete enumeration of the layer-subset grid on the real Config; bounded stand-in through expand()',
-        'clauses': 'F: config-layers, unknown-syntax, documented-defaults; B: expand-layers, random-layers.',
+        'clauses': 'P: config.merged_data; F: config-layers, unknown-syntax, documented-defaults; B: expand-layers, random-layers.',
     },
     'C01': {
         'category': 'other',
-        'text': 'The element tree denoted by > + ^ groups and *N is built by mutually recursive code that splices lists of freshly allocated nodes; an inductive proof that the result is spec_tree(tokens) needs a heap logic for trees the VC generator does not have (DESIGN.md section 8). Deductive part so far: the markup tokenizer that feeds the parser (shared with C18). The tree itself is decided by a bounded stand-in: every operator skeleton up to 4-5 elements printed FROM the tree, expanded under six configurations and compared with the tree recovered by an independent tag parser; implicit-name table exhaustive; random skeletons up to 40 elements.',
+        'text': 'Proved for all inputs: the implicit-name table of the statement (resolve_implicit_tag against li/tr/td/option/span/div for an arbitrary configured inline list; get_parent_element returns the closest element ancestor) and the markup tokenizer that feeds the parser. The element tree denoted by > + ^ groups and *N is built by mutually recursive list-splicing code; that it equals the denoted tree is decided by a bounded stand-in: every operator skeleton up to 4-5 elements printed FROM the tree, expanded under six configurations and compared by an independent tag parser; random skeletons up to 40 elements.',
         'design_ref': 'DESIGN.md section 7 (C01)',
         'note': 'Trusted: CPython for the bounded part; the independent tag parser / executable spec of the bounded oracle.',
         'technique': TECH + '; bounded stand-in: exhaustive operator skeletons + random large trees',
-        'clauses': 'P: abbreviation tokenizer (shared); B: skeleton-exhaustive, implicit-name-table, climb-clamp, random-large.',
+        'clauses': 'P: implicit_tag.resolve_implicit_tag, get_parent_element, abbreviation tokenizer; B: skeleton-exhaustive, implicit-name-table, climb-clamp, random-large.',
     },
     'C02': {
         'category': 'other',
@@ -98,11 +94,11 @@ LEVELS = {
     },
     'C03': {
         'category': 'other',
-        'text': 'Bounded stand-in: exhaustive sequences of up to 4 attribute mentions x syntaxes x attribute options, attribute lists read back by an independent parser and compared with an executable spec of the statement (sets of renderings where the statement is silent). The merge primitives are planned under contract (DESIGN.md); nothing of C03 is counted as proved yet beyond the tokenizer.',
+        'text': 'Proved: merge_declarations (for a repeated non-class attribute the last mention wins, the first under output.reverseAttributes; implied/boolean sticky, expression type kept). The rest (order of first mention, class joining, quoting, booleans, name mapping) is a bounded stand-in: exhaustive sequences of up to 4 attribute mentions x syntaxes x attribute options, read back by an independent parser and compared with an executable reading of the statement.',
         'design_ref': 'DESIGN.md section 7 (C03)',
         'note': 'Trusted: CPython for the bounded part; the independent tag parser / executable spec of the bounded oracle.',
         'technique': TECH + '; bounded stand-in: exhaustive attribute mention sequences',
-        'clauses': 'P: abbreviation tokenizer (shared); B: attr-sequences-exhaustive, attr-options-exhaustive, attr-owner-element.',
+        'clauses': 'P: markup.attributes.merge_declarations; B: attr-sequences-exhaustive, attr-options-exhaustive, attr-owner-element.',
     },
     'C04': {
         'category': 'other',
@@ -122,7 +118,7 @@ LEVELS = {
     },
     'C08': {
         'category': 'other',
-        'text': 'Whole-history statement: reduced in DESIGN.md to frame/ownership obligations. Deductive part so far: config.merged_data writes nothing but its fresh result (frame proved for arbitrary dictionaries, shared with C20). Histories are a bounded stand-in: sequences of 2-4 calls (shared cache, shared config object, failing calls) followed by a probe compared with the same probe in a fresh interpreter; growth of every module-level container, default argument and live emmet object is monitored.',
+        'text': 'Whole-history statement, reduced in DESIGN.md to frame/ownership obligations. Proved: config.merged_data writes nothing but its fresh result (built-in tables and caller dictionaries untouched, arbitrary dictionaries). Histories are a bounded stand-in: sequences of 2-4 calls (shared cache, shared config object, failing calls) followed by a probe compared with the same probe in a fresh interpreter; growth of module-level containers, default arguments and live emmet objects is monitored.',
         'design_ref': 'DESIGN.md section 7 (C08)',
         'note': 'Trusted: CPython for the bounded part; the independent tag parser / executable spec of the bounded oracle.',
         'technique': TECH + '; bounded stand-in: call histories vs fresh-interpreter reference, retention monitor',
@@ -138,42 +134,42 @@ LEVELS = {
     },
     'C12': {
         'category': 'other',
-        'text': 'Bounded stand-in: the same abbreviation under pairs of formatting option assignments x syntaxes compared after dropping inter-tag whitespace, comments and the self-closing slash; indentation == baseIndent + depth x indent; self-closing style exactness. Level bookkeeping of format.html.element is planned under contract (DESIGN.md).',
+        'text': 'Proved: get_indent is 0 or 1 (0 without parent), the output stream keeps its offset invariant and level under every push. A contract for html.element (level restored on every path) was attempted and withdrawn (solver unknown, DESIGN.md 11.3). Cosmetic-ness of the options, indentation == depth and self-closing exactness are bounded stand-ins comparing the same abbreviation under pairs of option assignments.',
         'design_ref': 'DESIGN.md section 7 (C12)',
         'note': 'Trusted: CPython for the bounded part; the independent tag parser / executable spec of the bounded oracle.',
         'technique': TECH + '; bounded stand-in: option-pair comparisons, indentation oracle',
-        'clauses': 'B: cosmetic-pairs, indent-equals-depth, selfclose-exact.',
+        'clauses': 'P: format.html.get_indent, OutputStream.*; B: cosmetic-pairs, indent-equals-depth, selfclose-exact.',
     },
     'C13': {
         'category': 'other',
-        'text': 'Bounded stand-in: recording output.field/output.text callbacks; for every invocation final[offset:offset+len(ret)] == ret and line/column recomputed from the final string; tabstop numbering 1,2,3.. in document order, explicit fields keep relative numbering. OutputStream bookkeeping is planned under contract (DESIGN.md).',
+        'text': 'Proved for arbitrary callbacks: whenever output.field / output.text is invoked the offset it is given equals the total length pushed so far (representation invariant of OutputStream over all push operations), and push_tokens allocates tabstop numbers of one value inside [old counter, new counter) keeping the written differences. Line/column exactness and document-order numbering end to end are bounded stand-ins with recording callbacks in seven styles.',
         'design_ref': 'DESIGN.md section 7 (C13)',
         'note': 'Trusted: CPython for the bounded part; the independent tag parser / executable spec of the bounded oracle.',
         'technique': TECH + '; bounded stand-in: recording callbacks over generated abbreviations x newline/indent settings',
-        'clauses': 'B: callback-positions, callback-positions-multiline-placeholder, tabstops-auto, tabstops-explicit.',
+        'clauses': 'P: OutputStream._push/push/push_string/push_newline/push_indent/push_field, format.utils.push_tokens; B: callback-positions(-multiline-placeholder), tabstops-auto, tabstops-explicit.',
     },
     'C14': {
         'category': 'other',
-        'text': 'Complete finite-domain clauses: every name of the built-in html/xsl/pug snippet tables expands exactly like its definition (10 syntaxes), every part of every raw a|b key maps to that key. Aliases inside larger abbreviations and random user tables with self- and mutual references (termination, nesting depth <= number of snippets) are bounded stand-ins. The cycle-guard invariant of resolve_snippets is planned under contract.',
+        'text': 'Proved: the cycle guard of resolve (the stack never holds a snippet twice, so nesting is bounded by the number of snippets) and the stack discipline (every invocation leaves the stack as it found it, across the recursive walk). Complete finite-domain clauses: every name of the built-in html/xsl/pug tables expands like its definition; every part of every a|b key maps to that key. Decorated aliases and random cyclic user tables are bounded stand-ins.',
         'design_ref': 'DESIGN.md section 7 (C14)',
         'note': 'Trusted: CPython for the bounded part; the independent tag parser / executable spec of the bounded oracle.',
         'technique': TECH + '; complete enumeration of the built-in snippet tables; bounded stand-in for decorated aliases and user tables',
-        'clauses': 'F: snippet-keys, builtin-alias; B: alias-decorated, user-tables.',
+        'clauses': 'P: markup.snippets resolve closure; F: snippet-keys, builtin-alias; B: alias-decorated, user-tables.',
     },
     'C15': {
         'category': 'other',
-        'text': 'Bounded stand-in: exhaustive skeletons up to 5 elements x haml/pug/slim x indent strings: one line per element, indentation/len(indent) == depth, name#id.class heads, multi-line text one level deeper, tree recovered from indentation == tree of the HTML output. Level bookkeeping of indent_format.element is planned under contract.',
+        'text': 'Proved: indent_format.element raises the level by one for a nested node and restores it on every path (the level leak after a self-closing or text-only node the property worries about is a failure of this postcondition); the attribute/value pushers are trusted helpers. One line per element at its depth, heads, multi-line text and equality with the HTML tree are bounded stand-ins over exhaustive skeletons x haml/pug/slim x indent strings.',
         'design_ref': 'DESIGN.md section 7 (C15)',
         'note': 'Trusted: CPython for the bounded part; the independent tag parser / executable spec of the bounded oracle.',
         'technique': TECH + '; bounded stand-in: exhaustive skeletons, head forms, text-only / self-closing placements',
-        'clauses': 'B: lines-skeleton-exhaustive, head-forms, text-only-self-closing-levels, text-only-self-closing-heads, random-large.',
+        'clauses': 'P: format.indent_format.element; B: lines-skeleton-exhaustive, head-forms, text-only-self-closing-levels/-heads, random-large.',
     },
     'C19': {
         'category': 'other',
-        'text': 'Bounded stand-in against an independent recogniser with exact Fraction arithmetic: every token sequence up to 6 (8 for a narrow alphabet) tokens, random deeper expressions, arbitrary strings for the error clause; extract() on all strings up to length 4, all positions. The backward extractor and parser bookkeeping are planned under contract (DESIGN.md): operator-precedence correctness itself is a protocol-level proof outside this technique.',
+        'text': 'Proved for all texts and in-range positions: math extract returns None or 0 <= start <= end <= len(text), the range contains only digits, dots, operators, parentheses and spaces, and look-ahead crosses only ) and spaces. Value and precedence (correctness of an operator-precedence algorithm) and the error clause are a bounded stand-in against an independent recogniser with exact Fraction arithmetic.',
         'design_ref': 'DESIGN.md section 7 (C19)',
         'note': 'Trusted: CPython for the bounded part; the independent tag parser / executable spec of the bounded oracle.',
         'technique': TECH + '; bounded stand-in: exhaustive token sequences vs independent evaluator',
-        'clauses': 'B: evaluate-token-sequences(-narrow), evaluate-wellformed-deeper, evaluate-random, evaluate-strings, extract-exhaustive.',
+        'clauses': 'P: math_expression.extract number/extract; B: evaluate-token-sequences(-narrow), evaluate-wellformed-deeper, evaluate-random, evaluate-strings, evaluate-intdiv-literals, extract-exhaustive.',
     },
 }
